@@ -3,6 +3,9 @@ package main
 import (
 	"encoding/binary"
 	"math/rand"
+	"strconv"
+	"strings"
+	"sync"
 
 	"github.com/parquet-go/parquet-go"
 	"github.com/parquet-go/parquet-go/compress"
@@ -220,6 +223,9 @@ func codecs() []codecInfo {
 }
 
 func codecByName(name string) *codecInfo {
+	if base, level, ok := strings.Cut(name, "@"); ok {
+		return levelledCodec(base, level)
+	}
 	for _, ci := range codecs() {
 		if ci.name == name {
 			c := ci
@@ -229,9 +235,91 @@ func codecByName(name string) *codecInfo {
 	return nil
 }
 
+// ---- the same codec types at every compression level ----------------------------
+//
+// "zstd@3", "gzip@9", "brotli@11/16" (quality/lgwin), "lz4@99": one value per
+// name and process, shared by all calls of a history like the values exported
+// by package parquet are (its pools fill with encoders/decoders of that
+// level); fresh() builds a new value with the same parameters.
+
+var (
+	levelledMu sync.Mutex
+	levelled   = map[string]compress.Codec{}
+)
+
+// codecLevels lists the levels of a codec type: every named level of the
+// package, the zero value of the Codec struct, and for the numeric scales both
+// ends and the middle.
+func codecLevels(base string) []string {
+	switch base {
+	case "zstd":
+		return []string{"0", "1", "2", "3", "4"} // zero value (= default), SpeedFastest, SpeedDefault, SpeedBetterCompression, SpeedBestCompression
+	case "gzip":
+		return []string{"-2", "0", "1", "6", "9"} // HuffmanOnly, NoCompression (the zero value), BestSpeed, 6, BestCompression
+	case "brotli":
+		return []string{"1", "5", "9", "11", "2/10", "6/16", "4/24"} // quality[/lgwin]; quality 0 lgwin 0 is parquet.Brotli
+	case "lz4":
+		return []string{"99", "512", "4096", "131072"} // Fastest, Level1, Level4, Level9 (CompressorHC); Fast is parquet.Lz4Raw
+	}
+	return nil
+}
+
+// codecNames: the exported values and every levelled variant.
+func codecNames(levels bool) []string {
+	names := []string{"uncompressed", "snappy", "gzip", "brotli", "zstd", "lz4"}
+	if levels {
+		for _, base := range []string{"gzip", "brotli", "zstd", "lz4"} {
+			for _, l := range codecLevels(base) {
+				names = append(names, base+"@"+l)
+			}
+		}
+	}
+	return names
+}
+
+func levelledCodec(base, level string) *codecInfo {
+	q, lg, _ := strings.Cut(level, "/")
+	a, err := strconv.Atoi(q)
+	if err != nil {
+		return nil
+	}
+	b := 0
+	if lg != "" {
+		if b, err = strconv.Atoi(lg); err != nil {
+			return nil
+		}
+	}
+	var fresh func() compress.Codec
+	switch base {
+	case "zstd":
+		fresh = func() compress.Codec { return &zstd.Codec{Level: zstd.Level(a)} }
+	case "gzip":
+		fresh = func() compress.Codec { return &gzip.Codec{Level: a} }
+	case "brotli":
+		fresh = func() compress.Codec { return &brotli.Codec{Quality: a, LGWin: b} }
+	case "lz4":
+		fresh = func() compress.Codec { return &lz4.Codec{Level: lz4.Level(a)} }
+	default:
+		return nil
+	}
+	name := base + "@" + level
+	levelledMu.Lock()
+	defer levelledMu.Unlock()
+	if levelled[name] == nil {
+		levelled[name] = fresh()
+	}
+	return &codecInfo{name: name, shared: levelled[name], fresh: fresh}
+}
+
+// baseCodec strips the level: "zstd@3" -> "zstd".
+func baseCodec(name string) string {
+	base, _, _ := strings.Cut(name, "@")
+	return base
+}
+
 // declaredSize: what the header of a snappy / zstd stream announces (0 when it cannot be parsed).
 func declaredSize(codec string, src []byte) uint64 {
-	switch codec {
+	switch baseCodec(codec) {
 	case "snappy":
 		v, n := binary.Uvarint(src)
 		if n > 0 {
